@@ -39,6 +39,24 @@ def gen_opt_case(rng):
             'stream': 'optimiser:' + kind}
 
 
+def gen_pcm_equal_case(rng):
+    """a construction model with the equal-weight optimiser: only the assets the alpha model names (the members of its
+    dynamic universe at t) share the scale; held or listed non-members get zero"""
+    assets = ['EQ:' + a for a in rng.sample(ASSETS, rng.randint(2, 5))]
+    t = 1580000000 + rng.randint(0, 50) * 86400
+    entries = []
+    for a in assets:
+        r = rng.random()
+        entries.append([a, (t - rng.choice([0, 1, 86400, 400 * 86400]) if r < 0.55 else (t + rng.choice([1, 60, 86400]) if r < 0.85 else None))])
+    if not any(e is not None and e <= t for _, e in entries):
+        entries[0][1] = t
+    held = [[a, rng.choice([rng.randint(1, 200), -rng.randint(1, 50)])] for a in rng.sample(assets, rng.randint(0, len(assets)))]
+    return {'op': 'pcm', 'kind': 'long_short', 'param': 1.0, 'equity': float(rng.randint(10000, 1000000)), 'fee': ['zero'],
+            'prices': [[a, float(rng.randint(5, 300))] for a in assets], 'held': held, 'universe': list(assets), 'alpha': [],
+            'alpha_dynamic': entries, 'signal': rng.choice([1.0, 0.5, 2.0]), 'opt': ['equal', rng.choice([1.0, 2.0, 0.5, 1.5])], 't': t,
+            'stream': 'pcm-equal-weight'}
+
+
 class C19(Prop):
     pid = 'C19'
     worker = 'pcmworker'
@@ -50,6 +68,7 @@ class C19(Prop):
     def gen(self, rng, tier):
         n = 800 if tier == 'quick' else 10000
         out = [gen_universe_case(rng) if rng.random() < 0.6 else gen_opt_case(rng) for _ in range(n)]
+        out += [gen_pcm_equal_case(rng) for _ in range(60 if tier == 'quick' else 600)]
         # whole sessions: dynamic universe + the universe-driven alpha model
         for _ in range(60 if tier == 'quick' else 800):
             c = sl.gen_session(rng, tier, alpha_kinds=('single',), allow_dynamic=True, all_quoted=True)
@@ -61,6 +80,8 @@ class C19(Prop):
     def model_case(self, c):
         if c['op'] == 'session':
             return sl.session_model_case(c)
+        if c['op'] == 'pcm':
+            return ('num', ['floor', Fraction(0)])
         if c['op'] == 'universe':
             u = c['universe']
             if u[0] == 'static':
@@ -111,6 +132,26 @@ class C19(Prop):
             return self.judge_session(c, impl, mod)
         j = Judgement()
         j.key = repr(c)
+        if c['op'] == 'pcm':
+            j.tags.append('model_skipped')
+            if impl[0] != 'ok':
+                j.failures.append('portfolio construction with the equal-weight optimiser raised %s' % (impl[1:],))
+                return j
+            t = c['t']
+            members = [a for a, e in c['alpha_dynamic'] if e is not None and e <= t]
+            want_keys = sorted(set(a for a, _ in c['held']) | set(c['universe']) | set(members))
+            alloc = dict(impl[1])
+            if sorted(alloc) != want_keys:
+                j.failures.append('allocation covers %s, expected held + listed + members = %s' % (sorted(alloc), want_keys))
+            share = Fraction(c['opt'][1]) / len(members)
+            for a, x in alloc.items():
+                w = share if a in members else Fraction(0)
+                if abs(Fraction(x) - w) > Fraction(1, 10**12):
+                    j.failures.append('%s (entry %s, t %s) has target weight %s; the members %s share the scale %s equally, everything else gets 0'
+                                      % (a, dict(c['alpha_dynamic']).get(a), t, x, members, c['opt'][1]))
+                    break
+            j.nontrivial = True
+            return j
         if c['op'] == 'universe':
             if [list(x) for x in mod] != [list(x) for x in impl]:
                 j.disagreements.append('universe membership model=%s impl=%s' % (mod, impl))
